@@ -42,6 +42,7 @@ def main(argv=None):
     ap.add_argument("--only", default=None)
     ap.add_argument("--no-thorough", action="store_true")
     ap.add_argument("--extra", default="", help="comma separated extra property ids to run against every change")
+    ap.add_argument("--pending", action="store_true", help="only changes that have no entry in RESULTS.json yet")
     ap.add_argument("--tests", action="store_true", help="also run the repository's test suite (minus the two ~20 min "
                     "Q-GMRES scale tests) on the patched copy")
     a = ap.parse_args(argv)
@@ -52,6 +53,10 @@ def main(argv=None):
     for d in sorted(glob.glob(os.path.join(VERIF, "seeded", "*", ""))):
         sid = os.path.basename(os.path.dirname(d))
         if a.only and a.only not in sid:
+            continue
+        if a.pending and sid in results:
+            continue
+        if not os.path.exists(os.path.join(d, "meta.json")):
             continue
         meta = json.load(open(os.path.join(d, "meta.json")))
         pid = meta["property"]
